@@ -9,6 +9,9 @@ void scen_c06(mt_case *);
 void scen_c07(mt_case *);
 void scen_c08(mt_case *);
 void scen_c09(mt_case *);
+void scen_c10(mt_case *);
+void scen_c11(mt_case *);
+void scen_c10_conc(mt_case *);
 void scen_c12(mt_case *);
 void scen_c13(mt_case *);
 void scen_c14(mt_case *);
@@ -23,6 +26,9 @@ const mt_scenario mt_scenarios[] = {
   { 7, "C07 join counter", scen_c07 },
   { 8, "C08 uncond", scen_c08 },
   { 9, "C09 felock", scen_c09 },
+  { 10, "C10 thread-specific data", scen_c10 },
+  { 11, "C11 destructors", scen_c11 },
+  { 30, "C10 concurrent key allocation", scen_c10_conc },
   { 12, "C12 stacks/records lifetime", scen_c12 },
   { 13, "C13 reaping", scen_c13 },
   { 14, "C14 once", scen_c14 },
